@@ -55,12 +55,10 @@ fn run(sut: &dyn Sut, parse: &dyn Fn(&str) -> Option<Op>, a: &Args) -> i32 {
             a.num("checkpoint", 1),
             &limits,
         ),
-        "replay" => {
-            let text = std::fs::read_to_string(a.get("file").expect("file=")).expect("replay file");
+        "replay" | "script" => {
+            let text = std::fs::read_to_string(a.get("file").expect("file=")).expect("script file");
             let lines: Vec<String> = text.lines().filter(|l| !l.starts_with('#') && !l.trim().is_empty()).map(|s| s.to_string()).collect();
-            let f = replay(sut, parse, &lines, &mut *out);
-            out.flush().unwrap();
-            return if f.is_empty() { 0 } else { 1 };
+            script(sut, parse, &lines, &mut *out, mode == "replay")
         }
         m => panic!("unknown mode {m}"),
     };
@@ -69,6 +67,9 @@ fn run(sut: &dyn Sut, parse: &dyn Fn(&str) -> Option<Op>, a: &Args) -> i32 {
     match a.get("stats") {
         Some(p) => std::fs::write(p, js).expect("stats"),
         None => eprintln!("{js}"),
+    }
+    if mode == "replay" && !stats.findings.is_empty() {
+        return 1;
     }
     0
 }
